@@ -10,22 +10,29 @@
 (* are counted in `zone` and printed as well.                              *)
 (* op records:  [op |-> "task", t]  [op |-> "prec", a, b]  [op |-> "cons", c] *)
 (*              [op |-> "look"]  (no call, queries only)                   *)
+(*              [op |-> "build", ts, calls]  (HTNOrder!Build: the calls     *)
+(*              AddSubtask(ts[i]) then AddConstraint, calls[i] = [a, b] for *)
+(*              Prec(a, b) or [a |-> 0, b |-> 0, c] for another constraint) *)
 (* each with obs: a sequence of [cls, po |-> [k, v], to |-> [k, v]].       *)
 (***************************************************************************)
 EXTENDS HTNOrder, Json, IOUtils
 Traces == ndJsonDeserialize(IOEnv.TRACES)
-VARIABLES tid, l, bad, zone
-tvars == <<vars, tid, l, bad, zone>>
+VARIABLES tid, l, bad, zone, an
+tvars == <<vars, tid, l, bad, zone, an>>
 
 \* constraints only mention subtasks of the network (the generators guarantee it; otherwise unjudged)
 WellFormed(T, C) == \A c \in C : Mentions(c) \subseteq T
+NoAnalysis == [qual |-> FALSE, P |-> {}, nlin |-> 0 - 1, s |-> <<>>, chain |-> {}]
 
 FirstBad(obs, A) ==
-   LET bs == {i \in DOMAIN obs : ClauseA(obs[i], A) # ""} IN
-   IF bs = {} THEN <<>>
-   ELSE LET i == CHOOSE i \in bs : \A j \in bs : i <= j IN <<ClauseA(obs[i], A), i>>
+   LET cl == [i \in DOMAIN obs |-> ClauseA(obs[i], A)]
+       bs == {i \in DOMAIN obs : cl[i] # ""}
+   IN IF bs = {} THEN <<>>
+      ELSE LET i == CHOOSE i \in bs : \A j \in bs : i <= j IN <<cl[i], i>>
 
-TraceInit == /\ tid \in DOMAIN Traces /\ l = 1 /\ bad = <<>> /\ zone = 0 /\ Init
+TraceInit == /\ tid \in DOMAIN Traces /\ l = 1 /\ bad = <<>> /\ zone = 0 /\ an = NoAnalysis /\ Init
+\* `an` holds the analysis of the network after the call (nlin = -1: not analysed / not well-formed);
+\* it is a variable only so that TLC computes it once per step
 TraceNext ==
    /\ l <= Len(Traces[tid].ops)
    /\ LET o == Traces[tid].ops[l] IN
@@ -33,14 +40,17 @@ TraceNext ==
            [] o.op = "prec" -> AddConstraint(Prec(o.a, o.b))
            [] o.op = "cons" -> AddConstraint(o.c)
            [] o.op = "look" -> Query
+           [] o.op = "build" -> Build(o.ts, [i \in DOMAIN o.calls |->
+                                   IF o.calls[i].a # 0 THEN Prec(o.calls[i].a, o.calls[i].b) ELSE o.calls[i].c])
+      /\ an' = IF o.obs = <<>> THEN NoAnalysis
+               ELSE LET T == Range(subs')
+                        C == {c \in Range(cons') : Temporal(c)}
+                    IN IF WellFormed(T, C) THEN Analysis(T, C) ELSE NoAnalysis
       /\ IF o.obs = <<>> THEN UNCHANGED <<bad, zone>>
-         ELSE LET T == Range(subs')
-                  C == {c \in Range(cons') : Temporal(c)}
-              IN IF ~WellFormed(T, C) THEN /\ zone' = zone + Len(o.obs) /\ bad' = bad
-                 ELSE LET A == Analysis(T, C)
-                          fb == FirstBad(o.obs, A)
-                      IN /\ zone' = IF ZoneA(A) THEN zone + Len(o.obs) ELSE zone
-                         /\ bad' = IF bad # <<>> \/ fb = <<>> THEN bad ELSE <<fb[1], l, fb[2]>>
+         ELSE IF an'.nlin < 0 THEN /\ zone' = zone + Len(o.obs) /\ bad' = bad
+         ELSE LET fb == FirstBad(o.obs, an')
+              IN /\ zone' = IF ZoneA(an') THEN zone + Len(o.obs) ELSE zone
+                 /\ bad' = IF bad # <<>> \/ fb = <<>> THEN bad ELSE <<fb[1], l, fb[2]>>
    /\ l' = l + 1 /\ tid' = tid
 TraceSpec == TraceInit /\ [][TraceNext]_tvars
 
